@@ -2,9 +2,9 @@ package sim
 
 import (
 	"fmt"
-	"runtime"
 	"hash/fnv"
 	"math/rand"
+	"runtime"
 	"sort"
 	"strings"
 	"sync"
@@ -38,14 +38,14 @@ type parkedG struct {
 // Engine is the cooperative scheduler: exactly one released goroutine runs
 // between two synctest.Wait() calls of the root goroutine.
 type Engine struct {
-	mu      sync.Mutex
-	active  atomic.Bool
-	parked  []*parkedG
-	names   map[int64]string
-	autoRole map[int64]string
+	mu        sync.Mutex
+	active    atomic.Bool
+	parked    []*parkedG
+	names     map[int64]string
+	autoRole  map[int64]string
 	nameCount map[string]int
-	noYield map[int64]int
-	arrival uint64
+	noYield   map[int64]int
+	arrival   uint64
 
 	sched   Sched
 	di      int
@@ -471,7 +471,15 @@ func (e *Engine) decideLocked(elig []*parkedG) *parkedG {
 	// fairness: anybody passed over too often is forced.
 	var starving *parkedG
 	for _, p := range elig {
-		if p.passed >= e.fairnessK && (starving == nil || p.passed > starving.passed) {
+		k := e.fairnessK
+		if strings.HasPrefix(p.name, "wm:") {
+			// The watermark channels hold 100 marks and Begin is sent under the
+			// oracle lock: a starved watermark goroutine would wedge the bubble
+			// (mutex waiters are not "durably blocked"). Several marks can be
+			// produced per step, so these goroutines get a much shorter leash.
+			k = 5
+		}
+		if p.passed >= k && (starving == nil || p.passed-k > starving.passed-e.fairnessK) {
 			starving = p
 		}
 	}
